@@ -7,6 +7,21 @@ VERIF = os.path.dirname(os.path.dirname(os.path.abspath(__file__)))
 
 # pid -> (category, technique, text, note, design_ref)
 CHECKS = {
+    "C01": ("other", "sink enumeration by effect + check-then-use by dominance with range-check summaries discovered from what a function's success return implies; alignment/length asserts; compile-fail witnesses",
+            "Every site that manufactures an accessor or reference from a parent (16 constructor call sites, 3 reference sinks, 4 ByteValued views per configuration, incl. the mmap and Xen back ends no baseline test compiles) is dominated by a successful range check of the very offset/extent it uses, with Le strictness and checked arithmetic; containment for derivation chains of any depth follows by induction; rustc decides that safe clients cannot forge accessors.",
+            "Trusted: the unsafe constructors' contracts; pointer provenance; rustc MIR and borrow checker.", "DESIGN.md §3 C01"),
+    "C02": ("other", "term-level delegation agreement and strictness checks on find_region and the provided methods of GuestMemory / GuestMemoryRegion",
+            "find_region's arms (index tested == index returned, x > 0, inclusive last), search key = start_addr, POS < LEN and LAST = start + (len-1), and every derived query as the stated function of find_region/try_access. Necessary conditions of the set-theoretic reading for every layout and address; the value-level truth table is not decided.",
+            "Trusted: binary_search_by_key on a sorted slice, Option/Result/Iterator combinators; sortedness from C10.", "DESIGN.md §3 C02"),
+    "C03": ("other", "protocol checks on try_access (callback argument roles, total/cur updates, exit table from dominating facts), its eight clients, the error-mapping table and the ten region forwarders",
+            "Decides the chunking protocol and the role of every closure parameter for all layouts/addresses/lengths; byte contents are not decided.",
+            "Trusted: C02 (lookup), C04 (copy primitives), core checked/overflowing arithmetic.", "DESIGN.md §3 C03"),
+    "C04": ("other", "operand agreement at every copy site (min over both sides, returned counts), start-bound strictness, who-may-touch table over effect-discovered accesses, object-route identity by MIR local",
+            "Necessary conditions for 'moves exactly the bytes it names' for all sizes, offsets and element types; data values, address order and route agreement on values are not decided.",
+            "Trusted: ptr::copy/read_volatile/write_volatile semantics; C01, C06.", "DESIGN.md §3 C04"),
+    "C06": ("other", "width-table, stride/decrement agreement, alignment gate over both pointers, descending width order, routing strictness, call-graph containment of all small-object routes, ordering forwarders",
+            "The access sequence issued for <= 8-byte transfers is built only from single volatile accesses justified by the alignment of both addresses, and every buffer/object route at three layers ends there. Schedules and codegen are not decided.",
+            "Trusted: codegen of aligned volatile machine-width accesses; atomics honour the Ordering.", "DESIGN.md §3 C06"),
     "C05": ("other", "effect pairing on resolved MIR: write primitives discovered by callee, pointer provenance classification, post-dominating mark_dirty with agreeing extent; derivation offset agreement; forwarder agreement; raw-handle exemption table",
             "For every guest-memory write in every feature configuration (incl. mmap/Xen code no baseline test compiles) a mark on the owning accessor's bitmap post-dominates the write with a covering extent, and every accessor derivation moves pointer and bitmap by the same offset: soundness of tracking for all operations, offsets, lengths and derivation chains by induction. Page arithmetic inside AtomicBitmap is covered by C09/C16 form rules only.",
             "Trusted: libc::read writes at most count bytes; atomics; unsafe-constructor contracts; rustc MIR. Does not decide the page-division identity.", "DESIGN.md §3 C05"),
@@ -19,6 +34,24 @@ CHECKS = {
     "C09": ("other", "dominance + unit/endpoint form rules on AtomicBitmap: guarded word access, div_ceil sizing agreement between new/enlarge/Clone, inclusive-last range form, forwarders",
             "Decides the form clauses (strict page<size guards on the same page term, page->word/bit units, ceil sizing, inclusive last page behind len!=0, offset-adding slices). The identity 'first..=last = overlapped pages' for all values is not decided.",
             "Trusted: core div_ceil/saturating_add/RangeInclusive/Vec; atomics.", "DESIGN.md §3 C09"),
+    "C10": ("other", "who-may-construct census, validator strictness from dominating facts, structure of insert/remove on a cloned vector, deep-immutability type walk, &self receivers, witnesses",
+            "A map value only comes from the validating constructor (behind its tests), remove_region, Default or Clone; overlap/sortedness tests have the right strictness and variants; updates work on a clone with search key = sort key and exact size match; nothing reachable from a map is interior-mutable; earlier maps and handles stay usable (rustc).",
+            "Trusted: Vec/sort/binary_search/Arc; rustc borrow checker.", "DESIGN.md §3 C10"),
+    "C11": ("other", "who-may-call census of ArcSwap store/load, MIR order in replace, who-may-construct census of the exclusive guard, type facts, compile-fail/-pass witnesses",
+            "Structural side conditions under which arc-swap + Mutex give the property for all schedules: one load per snapshot, only replace stores and only while the paired mutex guard is alive, guard Clone clones the same Arc, published map deeply immutable.",
+            "Trusted: arc-swap load/store semantics, Mutex exclusivity, Arc.", "DESIGN.md §3 C11"),
+    "C12": ("other", "ownership typestate on MIR (mmap result -> owner aggregate -> Drop munmap of the same fields; owned flag), Clone/leak census, Xen clone-chain table, compile-fail corpus with twins + signature rule",
+            "Exactly-once unmapping and no leak on construction paths as a typestate over owner types in both configurations; for ALL client programs rustc decides that no accessor outlives its region or map (15 witnesses with twins).",
+            "Trusted: kernel munmap; Arc; Rust move semantics; rustc borrow checker.", "DESIGN.md §3 C12"),
+    "C13": ("other", "per-adapter bookkeeping agreement on MIR terms (count copied = returned = advance), clamp-before-slice, ErrorKind/strictness from dominating facts, single-syscall rule",
+            "Necessary bookkeeping clauses of std-equivalence for all seven adapters; equality with std::io for all (stream, position, length) — incl. stream state after a failed exact read — is NOT decided (needs running both).",
+            "Trusted: copy helpers (C04), slice/Vec/Cursor/libc semantics.", "DESIGN.md §3 C13"),
+    "C14": ("other", "loop recognition: innermost loop of every unknown-stream call has one back edge dominated exactly by {Err, IOError, kind()==Interrupted}; exact-loop advance/termination rules; C03 client rules",
+            "The control skeleton of EINTR retry / short transfer / error propagation is decided for all scripts of stream behaviour; byte movement is not.",
+            "Trusted: io::Error::kind; stream implementors' contract; C03, C04.", "DESIGN.md §3 C14"),
+    "C15": ("other", "outcome tables from dominating branch facts for every construction function, operand/field agreement, symbolic enumeration of the Xen validity predicate over its 16 predicate assignments",
+            "Each rejection is raised exactly under its documented condition (right strictness) before the first mapping effect; what is checked is what is mapped and reported; the Xen flag predicate equals its specification on all 16 rows. Kernel/file coherence is not decided.",
+            "Trusted: libc constants, bitflags-generated code, kernel.", "DESIGN.md §3 C15"),
     "C16": ("other", "call-graph effect analysis (no marking effect reachable from any non-writing route), strict extent agreement (transferred count), mark-after-write dominance, orphan-mark census",
             "From every read/query/derivation/stream-out route of all three layers no marking body is reachable (trait dispatch over-approximated); every mark is paired with a dominating write and uses the transferred count; the only mark-everything branch is the failed descriptor read.",
             "Trusted: call-graph over-approximation is sound for local code; page arithmetic identity not decided.", "DESIGN.md §3 C16"),
